@@ -78,8 +78,11 @@ CHECKS = {
             "fit-order protocol on every DAG shape with <= 3 functions x every fit order x re-fit (102 histories, real __init__/fit/_fit/register/callback).",
             ASSUME + "Optimiser contracts (result inside bounds/constraints, local minimiser, not worse than start) are assumed; optimality itself is bounded.", TECH, "DESIGN.md 3 C14"),
     "C15": ("other",
-            "Deductive: the region handed to the erosion and the full 3^n structure (hdc.compute.region). The boundary-cell characterisation, labelling and the point sorter are checked by bounded run-time contracts on the real code.",
-            ASSUME + "ndimage / networkx / sklearn behaviour is exercised, not modelled.", "bounded run-time contracts + small deductive part", "DESIGN.md 3 C15"),
+            "Deductive: the region handed to the erosion and the full 3^n structure (hdc.compute.region); from the region to the coordinates (hdc.compute.boundary, 2-D / 3-D grids of symbolic size, anisotropic deltas, one or two regions): "
+            "every returned point is the centre of a boundary cell of its region, no cell twice, every boundary cell present, one (N, n_dim) array for one region (2-D: a permutation chosen by the sorter), one set per region otherwise. "
+            "Bounded: the real ndimage / point sorter on seeded grids and point sets (permutation property of the sorter).",
+            ASSUME + "Assumed contracts: scipy.ndimage.binary_erosion / label / generate_binary_structure (stated in the evidence), the point sorter returns a permutation (bounded check). More than two regions: bounded only.",
+            TECH + " + bounded run-time contracts", "DESIGN.md 3 C15"),
     "C16": ("other",
             "Deductive: inverse/transform round trips of all shipped transformation pairs and of the predefined triples, Jacobian = |det| by symbolic differentiation of the real _transform term, TransformedModel.pdf / draw_sample wiring "
             "incl. seeding by model.random_state. Monte-Carlo conditionals: bounded (DKW).",
